@@ -1,6 +1,7 @@
 import MpsVerif.Proofs.LifecycleStart
 import MpsVerif.Proofs.LifecycleWf
 import MpsVerif.Proofs.LifecycleCands
+import MpsVerif.Proofs.LifecyclePipes
 /-!
 # C11 — Server starts all-or-nothing and stops completely
 
@@ -39,14 +40,17 @@ Full statement of "stop completes" (NOT provable: false for pipe-backed queues, 
 
 together with `C11_stop_terminates` and `C11_stop_final` below (which do hold at full strength, for every
 well-formed network, every K and every residual workload).  What is proved instead of the progress half:
-`C11_stop_complete_partial` — progress for every well-formed network all of whose queues are thread queues
-(this is the class of servers the deterministic-scheduler tie runs), any tree shape, any number of workers per
-servlet, any residual workload.  Missing: (a) progress for pipe-backed queues under the side condition
-"every servlet has one worker, or the residual data fits the pipes" (the generic argument needs, per bounded
-channel, a single data writer that has finished before any sentinel enters the channel; it fails for
-multi-worker servlets = F19 and, in this model, also for ensembles/switches whose members have pipe-backed
-input queues); (b) `(compileServer K t).wf = true` for ALL trees `t` as a theorem — it is a hypothesis here,
-evaluated by the driver for every tree the check runs and by `decide` for the shapes below.
+`C11_stop_complete_partial` — progress for every well-formed network that satisfies the decidable side
+condition `Net.safe`: every pipe-backed queue has ONE node writing to it, and the main thread puts its own
+sentinel on it only after having joined that writer.  This covers every tree of thread servlets (no pipe at
+all: `C11_stop_complete_threads`, the class the deterministic-scheduler tie runs) and, with pipes of any
+capacity K ≥ 1 and ANY residual workload, sequences / ensembles of one-worker process servlets under the
+repaired stop orders (F12, F24).  It excludes exactly the known hangs: a servlet with ≥ 2 workers writing to a
+pipe (F19), switch members sharing a pipe-backed output queue, and the pinned stop orders (`Net.safe` is
+`false` there, see the examples).  Missing: (a) the full statement is false; (b) `(compileServer K t).wf = true`
+for ALL trees `t`, and a syntactic characterisation of the trees with `(compileServer K t).safe = true`, as
+theorems — both are hypotheses here, evaluated by the driver for every tree the check runs (`wf`) and by
+`decide` for the shapes below.
 -/
 
 /-- once `__exit__` has begun, at most `mu` further steps can happen, whatever the schedule, the tree, the pipe
@@ -65,17 +69,22 @@ theorem C11_stop_final (net : Net) (hwf : net.wf = true) (s : State) (hr : Reach
     (∀ n, n < net.nodes.length → s.nodes n = .s []) ∧ s.ledger = 0 :=
   final_all_exited net (wf_sound net hwf) s (inv_reachable net (wf_sound net hwf) hr) hf
 
-/-- thread queues: in every reachable state in which `__exit__` has not returned, some thread can move
-    (no hang), for every tree shape, workers per servlet, residual workload and schedule -/
-theorem C11_stop_complete_partial (net : Net) (hwf : net.wf = true) (hub : Unbounded net) (s : State)
+/-- no hang: in every reachable state in which `__exit__` has not returned some thread can move — for every
+    well-formed network satisfying `Net.safe`, every pipe capacity, residual workload and schedule -/
+theorem C11_stop_complete_partial (net : Net) (hwf : net.wf = true) (hsafe : net.safe = true) (s : State)
+    (hr : Reachable net s) (hnf : ¬ Final s) : ∃ a, (step net s a).isSome = true :=
+  progress_safe net (wf_sound net hwf) (safe_sound net hsafe) s hr hnf
+
+/-- thread queues only (any tree shape, any number of workers per servlet) -/
+theorem C11_stop_complete_threads (net : Net) (hwf : net.wf = true) (hub : Unbounded net) (s : State)
     (hr : Reachable net s) (hnf : ¬ Final s) : ∃ a, (step net s a).isSome = true :=
   progress_of_inv net (wf_sound net hwf) hub s (inv_reachable net (wf_sound net hwf) hr) hnf
 
-/-- the same for servlet trees made of thread servlets -/
+/-- the same for servlet trees -/
 theorem C11_stop_complete_partial_tree (K : Nat) (t : Tree) (hwf : (compileServer K t).wf = true)
-    (hub : Unbounded (compileServer K t)) (s : State) (hr : Reachable (compileServer K t) s) (hnf : ¬ Final s) :
+    (hsafe : (compileServer K t).safe = true) (s : State) (hr : Reachable (compileServer K t) s) (hnf : ¬ Final s) :
     ∃ a, (step (compileServer K t) s a).isSome = true :=
-  C11_stop_complete_partial _ hwf hub s hr hnf
+  C11_stop_complete_partial _ hwf hsafe s hr hnf
 
 /-- after `__exit__` the same server object can be entered again: all `assert not self._started` hold, the new
     state is the initial state (fresh queues and threads) and the ledger is empty -/
@@ -115,6 +124,16 @@ theorem C11_F19_witness :
 example : (compileServer 3 (.seq (.simple 2 false) (.ens (.simple 1 false) (.sw (.simple 2 false) (.simple 1 false))))).wf = true := by
   decide
 example : (compileServer 1 (.ens (.simple 3 true) (.seq (.simple 2 true) (.simple 1 false)))).wf = true := by decide
+/-- `Net.safe`: one-worker process servlets in sequence / ensemble are safe for every residual workload; the
+    F19 shape, a switch over process members, thread workers feeding a pipe, and the pinned exit order are not -/
+example : (compileServer 1 (.seq (.simple 1 true) (.ens (.simple 1 true) (.seq (.simple 1 true) (.simple 1 false))))).safe = true := by
+  decide
+example : (compileServer 1 (.seq (.simple 3 true) (.simple 1 true))).safe = false := by decide
+example : (compileServer 1 (.sw (.simple 1 true) (.simple 1 true))).safe = false := by decide
+example : (compileServer 1 (.seq (.simple 2 false) (.simple 1 true))).safe = false := by decide
+example : (compileServer 1 (.simple 1 true) (pinned := true)).safe = false := by decide
+example : (compileServer 3 (.seq (.simple 2 false) (.ens (.simple 1 false) (.simple 2 false)))).safe = true := by decide
+
 example : Unbounded (compileServer 3 (.seq (.simple 2 false) (.ens (.simple 1 false) (.simple 2 false)))) :=
   unbounded_of_all _ (by decide)
 
